@@ -1,9 +1,11 @@
 //go:build verif
 
 // Correspondence harness of the group coordinator (C12 C13 C14 C15 C43 C16): drives the real
-// GroupCoordinator over a real InMemoryStore (wrapped only to inject store failures and to gate
-// CommitConsumerOffset for the commit race) with the op lines on stdin and prints one canonical
-// result line per op, in the format of lean/Driver/C12.lean.
+// GroupCoordinator over a real InMemoryStore / EtcdStore (wrapped only to inject store failures and to
+// park a request inside a store call for the two-request schedules `race` and `par`) with the op lines
+// on stdin and prints one canonical result line per op, in the format of lean/Driver/C12.lean.
+// Every byte slice a reply hands out is kept and re-read after every later op (HANDOUT[..] prefix when
+// one changed).
 package main
 
 import (
@@ -89,10 +91,51 @@ type faultStore struct {
 	inner metadata.Store
 	mu    sync.Mutex
 	fail  [6]bool // 0 put 1 delete 2 fetchGroup 3 commit 4 fetchOffset 5 metadata
-	// gate for the commit race: when armed the next CommitConsumerOffset blocks until released
-	gateArmed   bool
+	// gates for two-request schedules (`race`, `par`): when gate k is armed the next store call of kind k
+	// (same numbering as fail) parks inside the store until released
+	gateArmed   [6]bool
 	gateArrived chan struct{}
 	gateRelease chan struct{}
+}
+
+const (
+	kPut = iota
+	kDelete
+	kFetchGroup
+	kCommit
+	kFetchOffset
+	kMetadata
+)
+
+var gateNames = map[string]int{"put": kPut, "del": kDelete, "fetchg": kFetchGroup, "commit": kCommit, "meta": kMetadata}
+
+// gate parks the calling goroutine when gate k is armed (one shot).
+func (f *faultStore) gate(k int) {
+	f.mu.Lock()
+	armed := f.gateArmed[k]
+	f.gateArmed[k] = false
+	arrived, release := f.gateArrived, f.gateRelease
+	f.mu.Unlock()
+	if armed {
+		close(arrived)
+		<-release
+	}
+}
+
+// arm arms gate k and returns the channels of this arming.
+func (f *faultStore) arm(k int) (arrived, release chan struct{}) {
+	f.mu.Lock()
+	defer f.mu.Unlock()
+	f.gateArmed[k] = true
+	f.gateArrived = make(chan struct{})
+	f.gateRelease = make(chan struct{})
+	return f.gateArrived, f.gateRelease
+}
+
+func (f *faultStore) disarm(k int) {
+	f.mu.Lock()
+	f.gateArmed[k] = false
+	f.mu.Unlock()
 }
 
 var errInjected = errors.New("verif: injected store failure")
@@ -108,32 +151,28 @@ func (f *faultStore) take(k int) bool {
 }
 
 func (f *faultStore) PutConsumerGroup(ctx context.Context, g *metadatapb.ConsumerGroup) error {
+	f.gate(kPut)
 	if f.take(0) {
 		return errInjected
 	}
 	return f.inner.PutConsumerGroup(ctx, g)
 }
 func (f *faultStore) DeleteConsumerGroup(ctx context.Context, id string) error {
+	f.gate(kDelete)
 	if f.take(1) {
 		return errInjected
 	}
 	return f.inner.DeleteConsumerGroup(ctx, id)
 }
 func (f *faultStore) FetchConsumerGroup(ctx context.Context, id string) (*metadatapb.ConsumerGroup, error) {
+	f.gate(kFetchGroup)
 	if f.take(2) {
 		return nil, errInjected
 	}
 	return f.inner.FetchConsumerGroup(ctx, id)
 }
 func (f *faultStore) CommitConsumerOffset(ctx context.Context, group, topic string, partition int32, offset int64, md string) error {
-	f.mu.Lock()
-	armed := f.gateArmed
-	f.gateArmed = false
-	f.mu.Unlock()
-	if armed {
-		close(f.gateArrived)
-		<-f.gateRelease
-	}
+	f.gate(kCommit)
 	if f.take(3) {
 		return errInjected
 	}
@@ -162,6 +201,7 @@ func (f *faultStore) LookupConsumerOffset(ctx context.Context, group, topic stri
 	return o, m, true, err
 }
 func (f *faultStore) Metadata(ctx context.Context, topics []string) (*metadata.ClusterMetadata, error) {
+	f.gate(kMetadata)
 	if f.take(5) {
 		return nil, errInjected
 	}
@@ -187,6 +227,77 @@ type harness struct {
 	groups  map[int]bool // group indices named by an op of this history (the dump looks these up in the store)
 	mark    time.Time    // real time up to which the drift below is accounted
 	skew    time.Duration
+	// every byte slice a reply handed out in this history (SyncGroup assignment, JoinGroup member metadata): the
+	// slice itself and a private copy taken when the call returned.  The broker serialises a reply after the
+	// coordinator call has returned (and released its lock), so the bytes must stay what they were.
+	handouts []handout
+}
+
+type handout struct {
+	what string // "sync m1" / "join m2 member m1"
+	live []byte
+	copy []byte
+}
+
+func (h *harness) keep(what string, b []byte) {
+	if len(b) == 0 {
+		return
+	}
+	h.handouts = append(h.handouts, handout{what: what, live: b, copy: append([]byte(nil), b...)})
+}
+
+// checkHandouts re-reads every slice handed out so far; a changed one is reported once (decoded before / now).
+func (h *harness) checkHandouts() string {
+	var bad []string
+	for i := range h.handouts {
+		ho := &h.handouts[i]
+		if ho.copy == nil || string(ho.live) == string(ho.copy) {
+			continue
+		}
+		was, now := "", ""
+		if strings.HasPrefix(ho.what, "sync") {
+			was, now = decodeAssignment(ho.copy), decodeAssignment(ho.live)
+		} else {
+			was, now = decodeSubscription(ho.copy), decodeSubscription(ho.live)
+		}
+		bad = append(bad, fmt.Sprintf("%s:was=%s:now=%s", strings.ReplaceAll(ho.what, " ", "_"), was, now))
+		ho.copy = nil
+	}
+	return strings.Join(bad, ",")
+}
+
+func decodeSubscription(b []byte) string {
+	var md kmsg.ConsumerMemberMetadata
+	if err := md.ReadFrom(b); err != nil {
+		return "undecodable"
+	}
+	return showTopics(md.Topics)
+}
+
+// prepared is one coordinator request split into the part that resolves names (done up front, on the main
+// goroutine), the call itself (may run on its own goroutine for `par`) and the formatting / bookkeeping of its
+// reply (main goroutine again).
+type prepared struct {
+	run func() interface{}
+	fin func(interface{}) string
+}
+
+type panicked struct{}
+
+func runSafe(p *prepared) (res interface{}) {
+	defer func() {
+		if r := recover(); r != nil {
+			res = panicked{}
+		}
+	}()
+	return p.run()
+}
+
+func (p *prepared) finish(r interface{}) string {
+	if _, ok := r.(panicked); ok {
+		return "panic"
+	}
+	return p.fin(r)
 }
 
 // freeze keeps virtual time independent of how long the harness itself runs (etcd round trips, a
@@ -328,6 +439,7 @@ func (h *harness) resetMode(useEtcd bool) {
 	h.groups = map[int]bool{}
 	h.mark = time.Time{}
 	h.skew = 0
+	h.handouts = nil
 }
 
 func (h *harness) mName(id string) string {
@@ -545,7 +657,17 @@ func parseIntList(s string) []int {
 
 // ---------------------------------------------------------------- ops
 
+type joinOut struct {
+	resp *kmsg.JoinGroupResponse
+	err  error
+}
+
 func (h *harness) opJoin(f []string) string {
+	p := h.prepJoin(f)
+	return p.finish(runSafe(p))
+}
+
+func (h *harness) prepJoin(f []string) *prepared {
 	g, _ := strconv.Atoi(f[1])
 	_, mid := h.mID(f[2])
 	se, _ := strconv.Atoi(f[3])
@@ -573,7 +695,15 @@ func (h *harness) opJoin(f []string) string {
 		p.Metadata = md.AppendTo(nil)
 		req.Protocols = append(req.Protocols, p)
 	}
-	resp, err := h.coord.JoinGroup(h.ctx, req)
+	run := func() interface{} {
+		resp, err := h.coord.JoinGroup(h.ctx, req)
+		return joinOut{resp, err}
+	}
+	return &prepared{run: run, fin: func(r interface{}) string { return h.finJoin(f, r.(joinOut)) }}
+}
+
+func (h *harness) finJoin(f []string, o joinOut) string {
+	resp, err := o.resp, o.err
 	if err != nil || resp == nil {
 		return "goerr"
 	}
@@ -598,6 +728,7 @@ func (h *harness) opJoin(f []string) string {
 			topics = showTopics(md.Topics)
 		}
 		mem = append(mem, h.mName(m.MemberID)+":"+topics)
+		h.keep("join "+h.mName(resp.MemberID)+" member "+h.mName(m.MemberID), m.ProtocolMetadata)
 	}
 	pn := ""
 	if resp.Protocol != nil {
@@ -622,43 +753,178 @@ func decodeAssignment(b []byte) string {
 	return strings.Join(s, "/")
 }
 
+type syncOut struct {
+	resp *kmsg.SyncGroupResponse
+	err  error
+}
+
 func (h *harness) opSync(f []string) string {
+	p := h.prepSync(f)
+	return p.finish(runSafe(p))
+}
+
+func (h *harness) prepSync(f []string) *prepared {
 	g, _ := strconv.Atoi(f[1])
 	k, mid := h.mID(f[2])
 	req := kmsg.NewPtrSyncGroupRequest()
 	req.Group = groupName(g)
 	req.MemberID = mid
 	req.Generation = h.genOf(k, f[3])
-	resp, err := h.coord.SyncGroup(h.ctx, req)
-	if err != nil || resp == nil {
-		return "goerr"
+	run := func() interface{} {
+		resp, err := h.coord.SyncGroup(h.ctx, req)
+		return syncOut{resp, err}
 	}
-	asg := "nil"
-	if len(resp.MemberAssignment) > 0 {
-		asg = decodeAssignment(resp.MemberAssignment)
+	fin := func(r interface{}) string {
+		resp, err := r.(syncOut).resp, r.(syncOut).err
+		if err != nil || resp == nil {
+			return "goerr"
+		}
+		asg := "nil"
+		if len(resp.MemberAssignment) > 0 {
+			asg = decodeAssignment(resp.MemberAssignment)
+			h.keep("sync "+h.mName(mid), resp.MemberAssignment)
+		}
+		return fmt.Sprintf("sync code=%d asg=%s", resp.ErrorCode, asg)
 	}
-	return fmt.Sprintf("sync code=%d asg=%s", resp.ErrorCode, asg)
+	return &prepared{run: run, fin: fin}
 }
 
 func (h *harness) opHeartbeat(f []string) string {
+	p := h.prepHeartbeat(f)
+	return p.finish(runSafe(p))
+}
+
+func (h *harness) prepHeartbeat(f []string) *prepared {
 	g, _ := strconv.Atoi(f[1])
 	k, mid := h.mID(f[2])
 	req := kmsg.NewPtrHeartbeatRequest()
 	req.Group = groupName(g)
 	req.MemberID = mid
 	req.Generation = h.genOf(k, f[3])
-	resp := h.coord.Heartbeat(h.ctx, req)
-	return fmt.Sprintf("code=%d", resp.ErrorCode)
+	return &prepared{
+		run: func() interface{} { return h.coord.Heartbeat(h.ctx, req) },
+		fin: func(r interface{}) string { return fmt.Sprintf("code=%d", r.(*kmsg.HeartbeatResponse).ErrorCode) },
+	}
 }
 
 func (h *harness) opLeave(f []string) string {
+	p := h.prepLeave(f)
+	return p.finish(runSafe(p))
+}
+
+func (h *harness) prepLeave(f []string) *prepared {
 	g, _ := strconv.Atoi(f[1])
 	_, mid := h.mID(f[2])
 	req := kmsg.NewPtrLeaveGroupRequest()
 	req.Group = groupName(g)
 	req.MemberID = mid
-	resp := h.coord.LeaveGroup(h.ctx, req)
-	return fmt.Sprintf("code=%d", resp.ErrorCode)
+	return &prepared{
+		run: func() interface{} { return h.coord.LeaveGroup(h.ctx, req) },
+		fin: func(r interface{}) string { return fmt.Sprintf("code=%d", r.(*kmsg.LeaveGroupResponse).ErrorCode) },
+	}
+}
+
+type commitOut struct {
+	resp *kmsg.OffsetCommitResponse
+	err  error
+}
+
+func (h *harness) prepCommit(f []string) *prepared {
+	req := h.commitRequest(f)
+	return &prepared{
+		run: func() interface{} {
+			resp, err := h.coord.OffsetCommit(h.ctx, req)
+			return commitOut{resp, err}
+		},
+		fin: func(r interface{}) string { return showCommit(r.(commitOut).resp, r.(commitOut).err) },
+	}
+}
+
+// prep builds one of the requests that take the coordinator lock (the ones `par` can schedule).
+func (h *harness) prep(f []string) *prepared {
+	if len(f) > 1 {
+		if g, err := strconv.Atoi(f[1]); err == nil {
+			h.groups[g] = true
+		}
+	}
+	switch {
+	case f[0] == "join" && len(f) >= 8:
+		return h.prepJoin(f)
+	case f[0] == "sync" && len(f) == 4:
+		return h.prepSync(f)
+	case f[0] == "hb" && len(f) == 4:
+		return h.prepHeartbeat(f)
+	case f[0] == "leave" && len(f) == 3:
+		return h.prepLeave(f)
+	case f[0] == "commit" && len(f) == 5:
+		return h.prepCommit(f)
+	case f[0] == "cleanup" && len(f) == 1:
+		return &prepared{
+			run: func() interface{} { h.coord.VerifCleanup(); return nil },
+			fin: func(interface{}) string { return "ok" },
+		}
+	}
+	return nil
+}
+
+// par GATE A... | B...: request A is started first with store gate GATE armed (put | del | fetchg | commit | meta);
+// when A parks inside that store call, request B is issued on another goroutine.  Both requests take the
+// coordinator lock, so on a coordinator that keeps its lock across the store call B has to wait: order=seq
+// (A, then B — also when A never reaches the gate).  order=split: B ran to completion while A was parked,
+// i.e. A had given up the lock in the middle of its work.  Names and `@` generations of both requests are
+// resolved before either runs; the replies are formatted (and clients' member ids noted) A first, then B.
+func (h *harness) opPar(f []string) string {
+	bar := -1
+	for i, w := range f {
+		if w == "|" {
+			bar = i
+			break
+		}
+	}
+	if len(f) < 5 || bar < 3 || bar+1 >= len(f) {
+		return "bad-op"
+	}
+	k, ok := gateNames[f[1]]
+	if !ok {
+		return "bad-op"
+	}
+	pa, pb := h.prep(f[2:bar]), h.prep(f[bar+1:])
+	if pa == nil || pb == nil {
+		return "bad-op"
+	}
+	arrived, release := h.store.arm(k)
+	aDone := make(chan interface{}, 1)
+	go func() { aDone <- runSafe(pa) }()
+	var ra, rb interface{}
+	select {
+	case <-arrived:
+	case ra = <-aDone: // never reached the gate
+		h.store.disarm(k)
+		rb = runSafe(pb)
+		return fmt.Sprintf("par order=seq %s ; %s", pa.finish(ra), pb.finish(rb))
+	}
+	bDone := make(chan interface{}, 1)
+	go func() { bDone <- runSafe(pb) }()
+	order := ""
+	deadline := time.Now().Add(5 * time.Second)
+	for order == "" {
+		select {
+		case rb = <-bDone:
+			order = "split"
+		default:
+			if blockedOnCoordinatorLock() || time.Now().After(deadline) {
+				order = "seq"
+			} else {
+				time.Sleep(200 * time.Microsecond)
+			}
+		}
+	}
+	close(release)
+	ra = <-aDone
+	if order == "seq" {
+		rb = <-bDone
+	}
+	return fmt.Sprintf("par order=%s %s ; %s", order, pa.finish(ra), pb.finish(rb))
 }
 
 func (h *harness) commitRequest(f []string) *kmsg.OffsetCommitRequest {
@@ -712,9 +978,8 @@ func showCommit(resp *kmsg.OffsetCommitResponse, err error) string {
 }
 
 func (h *harness) opCommit(f []string) string {
-	req := h.commitRequest(f)
-	resp, err := h.coord.OffsetCommit(h.ctx, req)
-	return showCommit(resp, err)
+	p := h.prepCommit(f)
+	return p.finish(runSafe(p))
 }
 
 func (h *harness) opFetch(f []string) string {
@@ -813,12 +1078,7 @@ func (h *harness) opRace(f []string) string {
 		h.groups[g] = true
 	}
 	req := h.commitRequest(f[:bar])
-	h.store.mu.Lock()
-	h.store.gateArmed = true
-	h.store.gateArrived = make(chan struct{})
-	h.store.gateRelease = make(chan struct{})
-	arrived, release := h.store.gateArrived, h.store.gateRelease
-	h.store.mu.Unlock()
+	arrived, release := h.store.arm(kCommit)
 	commitDone := make(chan string, 1)
 	go func() {
 		defer func() {
@@ -837,9 +1097,7 @@ func (h *harness) opRace(f []string) string {
 	case commitRes = <-commitDone: // rejected (or nothing to write): never reached the store
 	}
 	if !gated {
-		h.store.mu.Lock()
-		h.store.gateArmed = false
-		h.store.mu.Unlock()
+		h.store.disarm(kCommit)
 		other := h.exec(f[bar+1:])
 		return fmt.Sprintf("race order=commit,other %s ; %s", commitRes, other)
 	}
@@ -950,10 +1208,17 @@ func main() {
 		var res string
 		if f[0] == "race" {
 			res = h.opRace(f)
+		} else if f[0] == "par" {
+			res = h.opPar(f)
 		} else {
 			res = h.exec(f)
 		}
 		dur := time.Since(t0)
+		if res != "bad-op" {
+			if bad := h.checkHandouts(); bad != "" {
+				res = "HANDOUT[" + bad + "] " + res
+			}
+		}
 		if res == "bad-op" {
 			fmt.Fprintln(w, res)
 		} else {
